@@ -42,6 +42,14 @@ CHECKS["C05"] = (
     "3/C05",
 )
 
+CHECKS["C04"] = (
+    "exploration",
+    "deterministic simulation: seeded write/read/remove/flush/reopen histories over the real store front ends against a map model, clean restarts on the same directory",
+    "Seeded search over histories of writes (size patterns: large-then-small, shrinking, growing, equal, doubling; payload classes incl. BLTE look-alikes and nested BLTE files), reads of any earlier key, queries, removes, flushes and reopen on DynamicContainer, Installation and bare ArchiveManager (None/ZLib/LZ4); after every operation the newest and one older object are read back and compared byte for byte with the model, all objects at the end and after each reopen.",
+    "Trusted: the map model; the encoding key rule MD5(BLTE(single_chunk)) computed through cascette-formats; tmpfs + mmap semantics. Sizes up to 256 KiB (the defect class is about the mapping not growing at all, not about 64 MiB). Crash is C06.",
+    "3/C04",
+)
+
 PENDING = {}
 
 
